@@ -110,7 +110,11 @@ def big_repr(n):
 
 def int_exprs(vals):
     for v in vals:
-        yield v, lit(v), 's'
+        if v == -2**63:
+            # the literal 2^63 is already a big integer; i64::MIN as a machine word only arises from arithmetic
+            yield v, '((0-9223372036854775807) - 1)', 's'
+        else:
+            yield v, lit(v), 's'
         yield v, big_repr(v), 'b'
 
 
@@ -166,6 +170,40 @@ def suite_C06():
             cases.append(('s%d' % k, '%s << %d' % (ea, s), str(a << s), dict(a=a, op='<<', s=s, repr_a=ra)))
             k += 1
             cases.append(('s%d' % k, '%s >> %d' % (ea, s), str(a >> s), dict(a=a, op='>>', s=s, repr_a=ra)))
+            k += 1
+    def isprime(n):
+        if n < 2:
+            return False
+        d = 2
+        while d * d <= n:
+            if n % d == 0:
+                return False
+            d += 1
+        return True
+
+    def factor(n):
+        out = []
+        if n < 0:
+            out.append([-1, 1])
+            n = -n
+        d = 2
+        while n > 1 and d * d <= n:
+            m = 0
+            while n % d == 0:
+                n //= d
+                m += 1
+            if m:
+                out.append([d, m])
+            d += 1
+        if n > 1:
+            out.append([n, 1])
+        return out
+    for n in list(range(-3, 130)) + [169, 221, 289, 323, 361, 7919, 7921, 10007, 2**31 - 1, (2**13 - 1) * (2**17 - 1), 1000003 * 1000003]:
+        for en, rn in [(lit(n), 's'), (big_repr(n), 'b')]:
+            cases.append(('pr%d' % k, 'is_prime(%s)' % en, str(int(isprime(n))), dict(n=n, op='is_prime', repr=rn)))
+            k += 1
+        if n != 0 and abs(n) < 10**13:
+            cases.append(('fa%d' % k, 'factorize(%s)' % lit(n), '[%s]' % ', '.join('[%d, %d]' % tuple(x) for x in factor(n)), dict(n=n, op='factorize')))
             k += 1
     for (a, ea, ra), e in itertools.product(list(int_exprs(SMALL_INTS)), [0, 1, 2, 3, 5, -1, -2]):
         if a == 0 and e < 0:
